@@ -216,7 +216,7 @@ def rule_pooling(ctx: Ctx) -> None:
         kw = {k: strip_v(S(v)) for k, v in mk[0].kwargs.items()}
         ctx.check(kw.get("config") == "self.metrics_config" and kw.get("used_frame") == "used_frame", "C13-pooling", "get_scene_result", f"fresh-score:{len(p.conds)}", f"scene MetricsScore built with {kw}", fi=fi)
         for name, cfg in (("evaluate_detection", "detection_config"), ("evaluate_tracking", "tracking_config"), ("evaluate_classification", "classification_config")):
-            has = fact_where(p, lambda k: S(k) == f"none:self.evaluator_config.metrics_config.{cfg}")
+            has = fact_where(p, lambda k: S(k) in (f"none:self.evaluator_config.metrics_config.{cfg}", f"none:self.metrics_config.{cfg}"))  # self.metrics_config is the property of the same value
             calls = [e for e in p.effects if e.kind == "call" and e.name == name]
             if has is False:
                 n += 1
